@@ -249,6 +249,8 @@ def judge(ctx, prop, jobs, runs, rerun, tag):
     rejected = validate_batch(ctx, 'TRACE_Repl', 'TRACE_Repl.cfg', runs, tag, bad_events=BAD)
     for i in rejected[:5]:
         k = known_instance(ctx, prop, runs[i], f'{tag}{i}')
+        if k is not None and k['id'] in ctx.known_seen:
+            continue        # an instance of a finding whose witness reproduced in this run
         ev2, again = None, False
         for r in range(4):
             ev2 = rerun(jobs[i], f'{tag}-repro{i}-{r}')
@@ -375,6 +377,8 @@ def run_fault(ctx, job, tag):
     notes = [e for e in read_ndjson(out) if e['e'] == 'note'] if os.path.exists(out) else []
     if rc != 0:
         ev.append({'e': 'error', 'msg': f'rc={rc} {err}'})
+    elif not any(e['e'] == 'hang' for e in ev):
+        ev.append({'e': 'end'})
     shutil.rmtree(os.path.join(d, 'db'), ignore_errors=True)
     job['_notes'] = notes
     return ev
@@ -509,6 +513,8 @@ def check_C15(ctx):
     rejected = validate_batch(ctx, 'TRACE_Repl', 'TRACE_Repl.cfg', runs, 'c15', bad_events=BAD)
     for i in rejected[:6]:
         k = known_instance(ctx, 'C15', runs[i], f'c15-{i}')
+        if k is not None and k['id'] in ctx.known_seen:
+            continue        # an instance of a finding whose witness reproduced in this run
         again = False
         for r in range(4):
             ev2 = run_fault(ctx, jobs[i], f'repro{i}-{r}')
@@ -530,7 +536,7 @@ def check_C15(ctx):
         raise Infra('vacuous: no fault scenario ran to its end')
     r1 = copy.deepcopy(ok_runs[0])
     del r1[max(i for i, e in enumerate(r1) if e['e'] == 'ret')]
-    r2 = [e for e in ok_runs[0] if e['e'] != 'hconv'] + [{'e': 'hconv', 'ok': False}]
+    r2 = [e for e in ok_runs[0] if e['e'] not in ('hconv', 'end')] + [{'e': 'hconv', 'ok': False}, {'e': 'end'}]
     for rr, name in ((r1, 'missing return'), (r2, 'healthy replica not converged')):
         if not validate_batch(ctx, 'TRACE_Repl', 'TRACE_Repl.cfg', [rr], 'c15-selftest', bad_events=BAD):
             raise Infra(f'binding self-test failed: a trace with a {name} was accepted')
